@@ -50,10 +50,10 @@ ACTIONS = {
     "dupl_q": ["GenDupl"],
 }
 # replay budget (problems x modes) per slice: None = everything
-QUICK_PER_SLICE = 700
-QUICK_PER_SLICE_SPECIAL = {"fine4_q": 300}
-THOROUGH_PER_SLICE = {"forms_q": 12000, "loose_q": 8000, "fine4_q": 4000, "s3_q": 8000, "s3_t": 16000,
-                      "s4k3_t": 24000, "chg_t": 16000, "dupl_t": 6000}
+QUICK_PER_SLICE = 400
+QUICK_PER_SLICE_SPECIAL = {"fine4_q": 200}
+THOROUGH_PER_SLICE = {"forms_q": 8000, "loose_q": 6000, "fine4_q": 3000, "s3_q": 6000, "s3_t": 12000,
+                      "s4k3_t": 16000, "chg_t": 12000, "s5_t": 6000, "dupl_t": 6000}
 
 # atomic number standing for row k (the charge row is key 0)
 ROW_KEYS = [1, 6, 8, 7, 16, 17, 11, 19, 20, 26, 29, 30, 12, 13, 15, 9, 35, 53, 25, 24]
@@ -64,7 +64,8 @@ FN = "balance_stoichiometry"
 
 # ----------------------------------------------------------------------------- building inputs
 DEFAULT_FORM = {"set": True, "cont": "list", "naming": "plain", "subst": "map", "psym": "default",
-                "num": "int", "calls": 1, "modearg": "plain", "allow": False, "keys": "plain"}
+                "num": "int", "calls": 1, "modearg": "plain", "allow": False, "keys": "plain",
+                "names": "same", "prior": "same"}
 
 
 def _form(inp):
@@ -84,58 +85,113 @@ def _names(inp):
     return reac, prod
 
 
+def _amount(v, scale, num):
+    """the amount entry/scale in the number type the form prescribes"""
+    if num in ("float", "explicit0f"):
+        return float(v) / scale
+    if num == "numpy":
+        import numpy
+        return numpy.int64(v) if scale == 1 else numpy.float64(v) / scale
+    if num == "sympy":
+        import sympy
+        return sympy.Rational(v, scale)
+    if num == "fraction":
+        import fractions
+        return fractions.Fraction(v, scale)
+    return v if scale == 1 else v / scale
+
+
 def _composition(inp, j, num="int", keys="plain"):
     comp = {}
     for k in range(inp["nk"]):
         v = inp["comp"][k][j]
-        if v == 0 and num != "explicit0":
+        if v == 0 and num not in ("explicit0", "explicit0f"):
             continue
         key = 0 if (k + 1) == inp["crow"] else (ROW_KEYS[inp["nk"] - 1 - k] if keys == "reversed" else ROW_KEYS[k])
-        amount = v if inp["scale"] == 1 else v / inp["scale"]
-        comp[key] = float(amount) if num == "float" else amount
+        comp[key] = _amount(v, inp["scale"], num)
     return comp
 
 
-def build(inp):
+def build(inp, shift=0):
+    """name -> Substance; shift > 0: the compositions are rotated among the species (another problem on
+    the same keys, used for the 'prior = other' history)"""
     from chempy import Substance
+    f = _form(inp)
     reac, prod = _names(inp)
+    names = reac + prod
     subst = {}
-    for j, name in enumerate(reac + prod):
-        subst[name] = Substance(name, composition=_composition(inp, j, _form(inp)["num"], _form(inp).get("keys", "plain")))
+    for j, name in enumerate(names):
+        c = _composition(inp, (j + shift) % len(names), f["num"], f.get("keys", "plain"))
+        # alias keys: the Substance's own name differs from the key it is held under
+        subst[name] = Substance(("subst-%d" % (j % 3)) if f.get("names") == "alias" else name, composition=c)
     return reac, prod, subst
 
 
-def call_args(inp):
-    """(reactants, products, keyword arguments) of the call in the form the case prescribes"""
+class _Factory(object):
+    """substance_factory whose table can be exchanged between calls"""
+    def __init__(self, table):
+        self.table = table
+
+    def __call__(self, key):
+        return self.table[key]
+
+
+def call_plan(inp):
+    """the call(s) in the form the case prescribes: (names, make_args, before_last) where make_args()
+    gives fresh (reactants, products) containers backed by the SAME objects where the form says so and
+    before_last() turns the state used by the earlier call into the one of the observed call"""
     import collections
     import sympy
     from chempy import Substance
     f = _form(inp)
     reac, prod, subst = build(inp)
-    cont = {"list": list, "tuple": tuple, "set": set, "frozenset": frozenset,
-            "dict": collections.OrderedDict.fromkeys}[f["cont"]]
+    other = f.get("prior") == "other" and f["calls"] > 1
+    first = build(inp, shift=1)[2] if other else subst
+    table = dict(first)                     # the one mapping object handed to every call
+    if f["subst"] == "superset":            # unrelated extra entries in the mapping
+        table["Au_extra"] = Substance("Au_extra", composition={79: 1})
+        table["e_extra"] = Substance("e_extra", composition={0: -1})
+    factory = _Factory(table)
     kw = {}
-    if f["subst"] == "map":
-        kw["substances"] = subst
-    elif f["subst"] == "superset":      # unrelated extra entries in the mapping
-        extra = dict(subst)
-        extra["Au_extra"] = Substance("Au_extra", composition={79: 1})
-        extra["e_extra"] = Substance("e_extra", composition={0: -1})
-        kw["substances"] = extra
+    if f["subst"] in ("map", "superset"):
+        kw["substances"] = table
     elif f["subst"] == "str":
-        names = list(collections.OrderedDict.fromkeys(reac + prod))
-        kw["substances"] = " ".join(names)
-        kw["substance_factory"] = subst.__getitem__
+        kw["substances"] = " ".join(collections.OrderedDict.fromkeys(reac + prod))
+        kw["substance_factory"] = factory
     else:
-        kw["substance_factory"] = subst.__getitem__
+        kw["substance_factory"] = factory
     if f["psym"] == "user_int":
         kw["parametric_symbols"] = sympy.numbered_symbols("q", start=3, integer=True, positive=True)
     elif f["psym"] == "user_plain":
         kw["parametric_symbols"] = sympy.numbered_symbols("w")
-    kw["underdetermined"] = 1 if (f["modearg"] == "one" and inp["mode"] == "None") else MODES[inp["mode"]]
+    if f["modearg"] == "one" and inp["mode"] == "None":
+        kw["underdetermined"] = 1
+    elif f["modearg"] == "zero" and inp["mode"] == "False":
+        kw["underdetermined"] = 0
+    else:
+        kw["underdetermined"] = MODES[inp["mode"]]
     if f["allow"] or inp["dupl"]:
         kw["allow_duplicates"] = True
-    return reac, prod, cont(reac), cont(prod), kw
+    rd, pd = collections.OrderedDict.fromkeys(reac), collections.OrderedDict.fromkeys(prod)
+    cont = {"list": list, "tuple": tuple, "set": set, "frozenset": frozenset,
+            "dict": collections.OrderedDict.fromkeys}.get(f["cont"])
+    if f["cont"] == "keysview":
+        fixed = (rd.keys(), pd.keys())
+    elif f["cont"] == "generator":
+        fixed = None
+    else:
+        fixed = (cont(reac), cont(prod))
+
+    def make_args():
+        if fixed is None:                   # one-shot iterators (a single call, see FormFits)
+            return (k for k in reac), (k for k in prod)
+        return fixed
+
+    def before_last():
+        if other:                           # edit the mapping in place / give the factory another table
+            for k, v in subst.items():
+                table[k] = v
+    return reac, prod, make_args, before_last, kw
 
 
 # ----------------------------------------------------------------------------- projection
@@ -300,17 +356,21 @@ def observe(inp):
     """call the real code on the abstract problem; never raises"""
     from chempy import balance_stoichiometry
     _limit_memory()
-    reac, prod, creac, cprod, kw = call_args(inp)
+    reac, prod, make_args, before_last, kw = call_plan(inp)
 
     def calls():
-        # the same argument objects (containers, mapping, symbol generator) are used for every call;
-        # the observation is the outcome of the last one
+        # the same argument objects (containers, mapping, factory, symbol generator) serve every call;
+        # what an earlier call returned is clobbered; the observation is the outcome of the last call
         for _ in range(_form(inp)["calls"] - 1):
             try:
-                balance_stoichiometry(creac, cprod, **kw)
+                early = balance_stoichiometry(*make_args(), **kw)
+                for d in early:
+                    for k in list(d):
+                        d[k] = 0
             except Exception:
                 pass
-        return balance_stoichiometry(creac, cprod, **kw)
+        before_last()
+        return balance_stoichiometry(*make_args(), **kw)
     try:
         res = _guarded(calls, inp.get("timeout") or (3 if inp["scale"] >= 10 ** 4 else None))
     except _CallTimeout:
@@ -371,21 +431,31 @@ def hadamard_ok(comp):
     return min(hr, hc) < 32767
 
 
-FORM_KEYS = ("cont", "naming", "subst", "psym", "num", "calls", "modearg", "allow", "keys")
+FORM_KEYS = ("cont", "naming", "subst", "psym", "num", "calls", "modearg", "allow", "keys", "names", "prior")
 
 
 def rand_form(rng, inp):
     """a call form for a seeded problem (validated by Balance!ChooseForm in the trace)"""
+    f = _rand_form(rng, inp)
+    if f["cont"] == "generator":
+        f["calls"] = 1
+    return f
+
+
+def _rand_form(rng, inp):
     return {"set": True,
-            "cont": rng.choice(["list", "tuple", "set", "frozenset", "dict"]),
+            "cont": rng.choice(["list", "tuple", "set", "frozenset", "dict", "keysview", "generator"]),
             "naming": rng.choice(["plain", "reversed"]),
             "subst": rng.choice(["map", "superset", "str", "none"]),
             "psym": rng.choice(["default", "default", "user_int", "user_plain"]),
-            "num": rng.choice(["int", "int", "float", "explicit0"]),
+            "num": rng.choice(["int", "int", "float", "explicit0", "explicit0f", "numpy", "sympy", "fraction"]),
             "calls": rng.choice([1, 1, 2]),
-            "modearg": "one" if inp["mode"] == "None" and not inp["dupl"] and rng.random() < 0.3 else "plain",
+            "modearg": ("one" if inp["mode"] == "None" and not inp["dupl"] and rng.random() < 0.3 else
+                        "zero" if inp["mode"] == "False" and rng.random() < 0.3 else "plain"),
             "allow": bool(inp["dupl"]) or rng.random() < 0.3,
-            "keys": rng.choice(["plain", "reversed"])}
+            "keys": rng.choice(["plain", "reversed"]),
+            "names": rng.choice(["same", "alias"]),
+            "prior": rng.choice(["same", "other"])}
 
 
 def problem_text(inp):
@@ -432,7 +502,7 @@ def unused_key(inp):
 
 def _key(inp, cls, clause, obs):
     return {"fn": FN, "mode": inp["mode"], "cls": cls, "clause": clause, "sig": obs.get("sig", ""),
-            "scale": inp["scale"], "num": _form(inp)["num"], "unused_key": unused_key(inp),
+            "scale": inp["scale"], "num": _form(inp)["num"], "cont": _form(inp)["cont"], "unused_key": unused_key(inp),
             "problem": problem_text(inp)}
 
 
@@ -673,7 +743,7 @@ def _catalog(rng, n_problems):
     for c in cat:
         out.append([{"nr": c["nr"], "np": c["np"], "nk": c["nk"], "crow": 0, "scale": 1, "comp": c["comp"],
                      "mode": "None", "dupl": [], "witness": list(c["witness"]),
-                     "unclassified": not hadamard_ok(c["comp"]), "form": dict(f), "timeout": 30}
+                     "unclassified": not hadamard_ok(c["comp"]), "form": dict(f), "timeout": 10}
                     for f in HARD_FORMS[:2]])
     return out
 
@@ -777,7 +847,7 @@ def _observe_inp(inp):
 
 
 # ----------------------------------------------------------------------------- run
-def _tlc_many(ctx, jobs, workers=4, parallel=4):
+def _tlc_many(ctx, jobs, workers=3, parallel=6):
     """run several exhaustive configs concurrently (JVM start-up dominates the small slices); accounting
     and vacuity guards exactly as ctx.tlc, done serially afterwards"""
     from concurrent.futures import ThreadPoolExecutor
@@ -846,14 +916,14 @@ def run(ctx):
                 batch.append((inp, obs, d, "spec->code", cfg))
         ctx.counters["direct_agree"] += len(agreeing)
         ctx.rng.shuffle(agreeing)
-        batch += agreeing[:30 if ctx.quick else 1000]   # cross-check of the two formulations
+        batch += agreeing[:30 if ctx.quick else 400]   # cross-check of the two formulations
         if sel:
             ctx.sample({"slice": sl, "problem": problem_text(sel[0]["in"]), "mode": sel[0]["in"]["mode"],
                         "exp": {k: sel[0]["exp"][k] for k in ("kind", "sols", "exc", "c")}}, cap=12)
     ctx.exhaustive = not sampled
 
     # ---- code -> spec: beyond the bounds, judged by TLC
-    inps = _seeded(ctx.rng, 800 if ctx.quick else 8000)
+    inps = _seeded(ctx.rng, 500 if ctx.quick else 5000)
     for inp in inps:
         inp["form"] = rand_form(ctx.rng, inp)
     outs = ctx.pmap(_observe_inp, inps)
@@ -865,7 +935,7 @@ def run(ctx):
         batch.append((inp, obs, None, "code->spec", "BalanceTrace.cfg"))
 
     # finely resolved fractional compositions (scale 10^4 / 10^5)
-    fine = _fine(ctx.rng, 150 if ctx.quick else 2000)
+    fine = _fine(ctx.rng, 100 if ctx.quick else 1200)
     for inp in fine:
         inp["form"] = dict(rand_form(ctx.rng, inp), num="int")      # amounts are floats already
     outs = ctx.pmap(_observe_inp, fine)
@@ -878,7 +948,7 @@ def run(ctx):
     ctx.counters["fine_fraction_problems"] += len(fine)
 
     # heavily under-determined problems: minimal sum judged against the planted witness and the peers
-    hard = _catalog(ctx.rng, 40) + _hard(ctx.rng, 4 if ctx.quick else 150)
+    hard = _catalog(ctx.rng, 40) + _hard(ctx.rng, 4 if ctx.quick else 80)
     flat = [inp for group in hard for inp in group]
     outs = ctx.pmap(_observe_inp, flat)
     it = iter(outs)
@@ -898,7 +968,7 @@ def run(ctx):
     ctx.counters["hard_minsum_problems"] += len(hard)
 
     # many-species problems (11..14) with a positive solution known by construction
-    big = _trees(ctx.rng, 150 if ctx.quick else 1500)
+    big = _trees(ctx.rng, 100 if ctx.quick else 800)
     for inp in big:
         inp["form"] = rand_form(ctx.rng, inp)
     outs = ctx.pmap(_observe_inp, big)
